@@ -412,6 +412,17 @@ pub fn run(name: &str) -> Option<bool> {
             let b = crate::outcome::run(&p, &bytes(&["--name", "a", "--name", "b", "x", "y"]));
             a.is_value() && !b.is_value()
         }
+        // C09: `cargo_helper("pretty", ..)` on `-- pretty a`: the data item is taken for the command
+        "cargo_helper_takes_data_right_of_separator" => {
+            let files = Spec::wrap(W::Many { catch: false }, 3, pos(2, Ty::Str));
+            let mut o = OptSpec::plain(Spec::Seq(vec![item(1, Names::short('v'), Leaf::Switch), files]));
+            o.cargo = Some("pretty".to_string());
+            let p = build_options(&o);
+            match crate::outcome::run(&p, &bytes(&["--", "pretty", "a"])) {
+                Outcome::Value(v) => !v.show().contains("pretty"),
+                _ => true,
+            }
+        }
         // C14: `image` typed exactly: the sibling command `images` is not offered
         "exact_name_hides_longer_sibling_in_completion" => {
             let cmd = |id: Id, name: &str| {
@@ -651,6 +662,19 @@ pub fn run(name: &str) -> Option<bool> {
             let o = OptSpec::plain(Spec::Seq(vec![g]));
             let p = build_options(&o);
             let out = crate::outcome::run(&p, &[]);
+            std::env::remove_var(var);
+            !out.is_value()
+        }
+        // C18: the same under `fallback(..)`: the copy of the state kept the note to itself
+        "invalid_variable_defeats_repeated_defaulted_item" => {
+            let var = "BPAF_VERIF_WITNESS_F45";
+            std::env::set_var(var, "zz");
+            let mut names = Names::long("alpha");
+            names.envs = vec![var.to_string()];
+            let a = Spec::wrap(W::Fallback, 2, arg(1, names, Ty::U32));
+            let o = OptSpec::plain(Spec::Seq(vec![Spec::wrap(W::Many { catch: false }, 3, a)]));
+            let p = build_options(&o);
+            let out = crate::outcome::run(&p, &bytes(&["--alpha", "1"]));
             std::env::remove_var(var);
             !out.is_value()
         }
